@@ -737,10 +737,55 @@ def run_probes(ctx):
     ctx.notes.append(f"explicit 'P0+P1=2' below P0=10: coverage of P1 0 -> 1 moves the value {v1!r} -> {v2!r} (mono theorems assume a monotone table)")
 
 
+def run_edited(ctx):
+    """'The value of a targeted parameter under active programs is ...' for the Covout as it IS: a Covout whose baseline, outcomes or explicit interaction values were
+    edited in place and refreshed with update_outcomes() (what reconciliation, sampling and the program-book editing calls do) must give the values of its new data;
+    the tables it caches from the previous data (deltas, combination outcomes, program order) must not show through. Kinds: special coverage vectors with their
+    closed-form oracle, and general vectors against the model."""
+    r = ctx.rng
+    cases, cos, kinds = [], [], []
+    for _ in range(ctx.n(300, 4000)):
+        n = r.choice([2, 3, 3, 4])
+        b, outs = rand_outs(r, n)
+        inter = r.choice(INTERS)
+        kind = r.choice(["single", "indicator", "general", "general"])
+        if kind == "single":
+            covs = [0.0] * n
+            covs[r.randrange(n)] = r.choice([1.0, 0.5, 0.25])
+        elif kind == "indicator":
+            covs = [float(r.randint(0, 1)) for _ in range(n)]
+        else:
+            covs = rand_cov(r, n)
+        target = Case(inter, b, outs, covs, rand_ex(r, b, outs), tag="edited")
+        b0, outs0 = rand_outs(r, n)
+        first = Case(inter, b0, outs0, covs, rand_ex(r, b0, outs0) if r.random() < 0.5 else [], tag="edited-first")
+        try:
+            co = build(first)
+            co.get_outcome(cov_dict(first.covs))
+            co.baseline = target.b
+            for i, o in enumerate(target.outs):
+                co.progs[name(i)] = o
+            co.imp_interaction = target.imp_string()
+            co.update_outcomes()
+        except Exception as e:
+            ctx.violation({"api": "Covout.update_outcomes", "case": "edit-raises"}, f"editing a Covout in place and calling update_outcomes() raised {type(e).__name__}: {str(e)[:160]}", {"first": first.to_json(), "case": target.to_json()})
+            continue
+        ctx.count("edited." + kind)
+        cases.append(target); cos.append(co); kinds.append(kind)
+    vals = run_batch(ctx, cases, cos=cos)
+    for c, kind, v in zip(cases, kinds, vals):
+        if v is None or kind == "general":
+            continue
+        bad = special_oracle(c, kind, v)
+        if bad:
+            ctx.violation({"api": "Covout.update_outcomes", "case": "edited-" + kind, "inter": c.inter}, f"{c.inter} n={c.n}, Covout edited in place then update_outcomes(): {bad}", {"case": c.to_json(), "script": c.script(), "oracle": kind, "edited": True})
+
+
 def run(ctx):
     cases = gen_cases(ctx)
     run_batch(ctx, cases, probe_every=ctx.n(20, 40))
     run_special_coverages(ctx)
+    run_edited(ctx)
     run_mono(ctx)
     run_progset(ctx)
     run_probes(ctx)
@@ -807,7 +852,20 @@ def replay(ctx, data):
         return 0
     c = Case.from_json(rp["case"])
     print("script:\n" + rp.get("script", c.script()))
-    v = impl_value(c)
+    if rp.get("edited"):
+        # the Covout is first built from other data of the same shape, then edited in place to the recorded data and refreshed
+        first = Case(c.inter, c.b + 1.0, [o * 0.5 + 0.25 * (i + 1) for i, o in enumerate(reversed(c.outs))], c.covs, [], tag="edited-first")
+        co = build(first)
+        co.get_outcome(cov_dict(first.covs))
+        co.baseline = c.b
+        for i, o in enumerate(c.outs):
+            co.progs[name(i)] = o
+        co.imp_interaction = c.imp_string()
+        co.update_outcomes()
+        print("(edited in place from baseline", first.b, "outcomes", first.outs, "then update_outcomes())")
+        v = impl_value(c, co=co)
+    else:
+        v = impl_value(c)
     reps = core.drive(requests_for(c))
     print("implementation:", repr(v))
     print("model value   :", reps[0], "=", float(unq(reps[0])) if not reps[0].startswith("err") else reps[0])
